@@ -167,24 +167,34 @@ Definition LLDP_getters : gtable :=
 (* HopByHopExtensionHeader.ParseHopByHopExtensions -- layer_ip6.go:114-172 *)
 
 (* data := p.Data(); pos := 0; for { buffer := data[pos:]; if len(buffer) < 1 -> err
-     t := buffer[0] & 0x1f; 0: pos++; 1: len<2 -> err, pos += buffer[1]+2; 5: len<4 -> err, buffer[2:4], pos += 4;
-     194 (unreachable after the mask) ; default: len<2 -> err, pos += buffer[1]+2;  if pos >= len(data) break } *)
+     t := buffer[0]   (repairs ddd494c, 3430bd4: the whole type octet; was buffer[0] & 0x1f)
+     0: pos++; 1: len<2 -> err, pos += buffer[1]+2; 5: len<4 || buffer[1] != 2 -> err, buffer[2:4], pos += 4;
+     194: len<6 || buffer[1] != 4 -> err, pos += 6; default: len<2 -> err, t>>6 != 0 -> err, pos += buffer[1]+2
+     if pos > len(data) -> err; if pos == len(data) break } *)
 Fixpoint hbh_walk (fuel : nat) (data : slice) (pos : nat) : res value :=
   match fuel with
   | O => Fuel
   | S f =>
       b <- slfrom data pos ;;
       if Nat.ltb (len b) 1 then Ok VE else
-      b0 <- idx b 0 ;;
-      let t := N.land b0 31 in
+      t <- idx b 0 ;;
       r <- (if t =? 0 then Ok (Some (pos + 1)%nat)
+            else if t =? 1 then
+              if Nat.ltb (len b) 2 then Ok None else b1 <- idx b 1 ;; Ok (Some (pos + N.to_nat b1 + 2)%nat)
             else if t =? 5 then
-              if Nat.ltb (len b) 4 then Ok None else _ <- sl b 2 4 ;; Ok (Some (pos + 4)%nat)
+              c <- orr (Ok (Nat.ltb (len b) 4)) (b1 <- idx b 1 ;; Ok (negb (b1 =? 2))) ;;
+              if c then Ok None else _ <- sl b 2 4 ;; Ok (Some (pos + 4)%nat)
+            else if t =? 194 then
+              c <- orr (Ok (Nat.ltb (len b) 6)) (b1 <- idx b 1 ;; Ok (negb (b1 =? 4))) ;;
+              if c then Ok None else Ok (Some (pos + 6)%nat)
             else
-              if Nat.ltb (len b) 2 then Ok None else b1 <- idx b 1 ;; Ok (Some (pos + N.to_nat b1 + 2)%nat)) ;;
+              if Nat.ltb (len b) 2 then Ok None else
+              if negb (N.shiftr t 6 =? 0) then Ok None else
+              b1 <- idx b 1 ;; Ok (Some (pos + N.to_nat b1 + 2)%nat)) ;;
       match r with
       | None => Ok VE
-      | Some pos' => if Nat.leb (len data) pos' then Ok VU else hbh_walk f data pos'
+      | Some pos' => if Nat.ltb (len data) pos' then Ok VE
+                     else if Nat.eqb pos' (len data) then Ok VU else hbh_walk f data pos'
       end
   end.
 (* if len(p) < 2 || len(p) < p.Len() { return nil, ErrParseFrame }   (repair 3cfc04d) *)
